@@ -287,7 +287,10 @@ NormTaxa(f, strict, taxa) == [i \in DOMAIN taxa |-> NormLabel(f, strict, taxa[i]
 
 \* construction routes; they differ (for the writers) in whether explicit column definitions exist
 Routes == {"from_dict", "concatenated", "exported", "exported_typed", "parsed_nexus", "parsed_phylip", "parsed_fasta", "parsed_nexml",
-           "typed_self_concatenated", "typed_self_extended"}      \* parsed from NeXML, then combined with itself: every column twice
+           "typed_self_concatenated", "typed_self_extended",      \* parsed from NeXML, then combined with itself: every column twice
+           "observed_then_rows", "observed_then_columns"}         \* two-phase history: built, observed (written / iterated), then completed
+                                                                  \* by a row operation (extend_matrix, add/update_sequences, new_sequence ...)
+                                                                  \* or a column operation (extend, replace, fill, remove ...)
 HasColDefs(route) == route \in {"parsed_nexml", "exported_typed"}
 SelfCombined(route) == route \in {"typed_self_concatenated", "typed_self_extended"}
 Doubled(m) == [m EXCEPT !.rows = [i \in DOMAIN m.rows |-> m.rows[i] \o m.rows[i]]]
